@@ -108,7 +108,7 @@ Section Expr2.
      && ok_expr2 lo ls U used e0
      && ok_target2 lo ls (comp_vars (CFor t e0 ps :: rest) ++ U) (slots ++ used) t
      && forallb (fun x => str_in x (comp_vars (CFor t e0 ps :: rest))) (target_names t)
-     && ok_cls lo ls (comp_vars (CFor t e0 ps :: rest)) (slots ++ used) curly body bodyv
+     && ok_cls lo ls (comp_vars (CFor t e0 ps :: rest)) (slots ++ used) body bodyv
                (rm (target_names t) (comp_vars (CFor t e0 ps :: rest) ++ U)) rest).
   Proof. reflexivity. Qed.
 
@@ -127,8 +127,8 @@ Section Expr2.
     end.
   Proof. reflexivity. Qed.
 
-  Lemma ok_cls_names : forall lo ls V used curly body bodyv l U,
-    ok_cls lo ls V used curly body bodyv U l = true -> forall x, List.In x (cls_names l) -> List.In x V.
+  Lemma ok_cls_names : forall lo ls V used body bodyv l U,
+    ok_cls lo ls V used body bodyv U l = true -> forall x, List.In x (cls_names l) -> List.In x V.
   Proof.
     induction l as [|[t e ps|c] l IH]; intros U H x Hx; simpl in *; try tauto.
     - apply andb_true_iff in H. destruct H as [H Hr]. apply andb_true_iff in H. destruct H as [_ Hn].
